@@ -582,3 +582,457 @@ def _error_side_calls_cancel(ctx, f, fl, start):
             r2 = f.reachable(err_start, avoid=cancel_blocks)
             return not any(f.blocks[x]["term"]["k"] == "return" for x in r2)
     return False
+
+
+# ================================================================ C19
+def _ret_sites(f):
+    """(block, idx|-1, rvalue-or-term) of every definition of the return place."""
+    for d in f.defs(0):
+        if d[0] == "assign":
+            yield d[1], d[2], d[3]
+        elif d[0] == "call":
+            yield d[1], -1, d[2]
+
+
+@rule("C19", "C19-A", 4, "while Suspended the send branch of both transaction loops is disabled: has_pdu_to_send cannot return true, and send_pdu sits behind that precondition")
+def c19_a(ctx):
+    def track(key):
+        return key[0] == "val" and key[1] == "self.state"
+
+    for adt, nm in ((RECV, "RecvTransaction"), (SEND, "SendTransaction")):
+        f = ctx.one("C19-A", nm + "::has_pdu_to_send")
+        fl = Flow(ctx.prog, ctx.mods, f, track)
+        badw = None
+        n = 0
+        for b, j, rv in _ret_sites(f):
+            if j >= 0 and rv["k"] == "use" and rv["op"]["k"] == "const" and rv["op"].get("val") == 0:
+                continue  # returns false
+            n += 1
+            worlds = fl.at_stmt(b, j) if j >= 0 else fl.at_term(b)
+            good, w = all_worlds_satisfy(worlds, lambda dw: val_not(dw, "self.state", {"Suspended"}))
+            if not good:
+                badw = (b, w)
+        key = "%s::has_pdu_to_send" % nm
+        if badw:
+            yield bad("C19-A", key, at(f), "has_pdu_to_send can return a non-false value while state == Suspended (bb%d, state %s)" % (badw[0], world_str(badw[1])))
+        else:
+            yield ok("C19-A", key, at(f), "%d possibly-true return sites, all with state != Suspended" % n)
+    # the select! arm that calls send_pdu is disabled by has_pdu_to_send()==false
+    daemon = [f for f in ctx.prog.by_norm.values() if f.crate == "cfdp_daemon"]
+    n = 0
+    for f, b, t, d, r in call_sites(daemon, lambda d_, r_: (r_ or d_).endswith("Transaction::send_pdu"), ctx.prog):
+        n += 1
+        nm = short(r or d)
+        eb = ExprBuilder(ctx.prog, f)
+        e = eb.call(b, t)
+        permit = expr_str(e[3][1])
+        key = "%s:%s" % (short(f.root or f.norm), nm)
+        import re as _re
+
+        m = _re.search(r"output@_(\d+)\.0", permit)
+        if not m:
+            yield undecided("C19-A", key, at(f, t["span"]["line"]), "send_pdu's permit is not the output of a select! branch: %s" % permit)
+            continue
+        k = int(m.group(1))
+        # find the precondition switch: has_pdu_to_send(&transaction) == false -> disabled |= 1 << k
+        found = False
+        for b2 in f.live_blocks():
+            t2 = f.blocks[b2]["term"]
+            if t2["k"] != "switch":
+                continue
+            ce = eb.operand(t2["discr"])
+            if ce[0] == "call" and (callee_name(ce) or "").endswith("Transaction::has_pdu_to_send"):
+                false_tgt = [tb for v, tb in t2["targets"] if v == 0]
+                if not false_tgt:
+                    continue
+                # blocks reachable from the false edge before rejoining the true edge
+                true_reach = f.reachable(t2["otherwise"], avoid=[b2])
+                only_false = [x for x in f.reachable(false_tgt[0], avoid=[b2]) if x not in true_reach]
+                for x in only_false:
+                    for s in f.blocks[x]["stmts"]:
+                        if s["k"] == "assign" and f.place_str(s["place"]) == "disabled":
+                            txt = expr_str(eb.rvalue(s["rv"]))
+                            if txt == "BitOr(disabled, Shl(const(1), const(%d)))" % k:
+                                found = True
+        if found:
+            yield ok("C19-A", key, at(f, t["span"]["line"]), "permit = select branch %d; branch %d is disabled when has_pdu_to_send() is false" % (k, k))
+        else:
+            yield bad("C19-A", key, at(f, t["span"]["line"]), "send_pdu is called on select branch %d, which is not disabled by has_pdu_to_send()==false" % k)
+    if n == 0:
+        raise Anchor("C19-A", "call sites of send_pdu in the transaction loops")
+
+
+ARMING = ("Timer::restart_inactivity", "Timer::reset_inactivity", "Timer::restart_ack", "Timer::reset_ack", "Timer::restart_nak", "Timer::reset_nak", "Counter::start", "Counter::restart", "Counter::reset")
+SUSPENDED_ENTRIES = ("process_pdu", "cancel", "send_report", "shutdown", "abandon", "prepare_prompt")
+
+
+@rule("C19", "C19-B", 2, "no entry point that can run while suspended (PDU reception, cancel, report) arms a timer unless state != Suspended")
+def c19_b(ctx):
+    from df import Inter
+
+    def track(key):
+        return key[0] == "val" and key[1] == "self.state"
+
+    for adt, nm in ((RECV, "RecvTransaction"), (SEND, "SendTransaction")):
+        fns = impl_fns(ctx, adt)
+        entries = [f for f in fns if f.name in SUSPENDED_ENTRIES]
+        if not entries:
+            raise Anchor("C19-B", "entry points of " + nm)
+        it = Inter(ctx.prog, ctx.mods, fns, entries, track)
+        counts = {}
+        for f in fns:
+            fl = it.flows.get(f.norm)
+            if fl is None:
+                continue
+            for b, t in f.all_calls():
+                d, r, _ = ctx.prog.callee_of(t)
+                cal = r or d or ""
+                hit = [a for a in ARMING if cal.endswith(a)]
+                if not hit:
+                    continue
+                base = "%s::%s->%s" % (nm, f.name, hit[0])
+                counts[base] = counts.get(base, 0) + 1
+                key = base + ("#%d" % counts[base] if counts[base] > 1 else "")
+                worlds = fl.at_term(b)
+                good, w = all_worlds_satisfy(worlds, lambda dw: val_not(dw, "self.state", {"Suspended"}))
+                chain = " -> ".join(short(x) for x, _ in it.chain(f.norm))
+                if good:
+                    yield ok("C19-B", key, at(f, t["span"]["line"]), {"chain": chain})
+                else:
+                    yield bad("C19-B", key, at(f, t["span"]["line"]), "timer armed (%s) on a path that can run while Suspended: %s; state %s" % (hit[0], chain, world_str(w)))
+
+
+# ================================================================ C18
+def _mode_ack(dw):
+    return val_in(dw, "self.config.transmission_mode", {"Acknowledged"})
+
+
+W_DERIVED_PLACES = ("self.naks", "self.prompt", "self.timer.nak", "self.delayed_nack_timers", "idx", "prompt")
+
+
+def _w_derived(dw):
+    """The world holds a fact that can only be true if an (inductively guarded)
+    enabling write ran earlier: NAK list non-empty, prompt present, NAK timer expired,
+    delayed-NAK timers present."""
+    for k, (pos, s) in dw.items():
+        if k[0] == "val" and k[1] == "self.prompt" and pos and s == frozenset(["Some"]):
+            return "prompt present"
+        if k[0] == "dexpr" and k[1] == "Option::take(&mut self.prompt)" and pos and s == frozenset(["Some"]):
+            return "prompt taken"
+        if k == ("val", "<enabled>"):
+            return "caller held an enabled-state guard"
+        if k[0] == "call" and k[1].endswith("VecDeque::is_empty") and any("self.naks" in a for a in k[2]) and pos and s == frozenset([0]):
+            return "NAK list non-empty"
+        if k[0] == "call" and k[1].endswith("Counter::timeout_occurred") and any("self.timer.nak" in a for a in k[2]) and pos and s == frozenset([1]):
+            return "NAK timer expired"
+        if k[0] == "expr" and k[1] == "Gt(idx, const(0))" and pos and s == frozenset([1]):
+            return "expired delayed-NAK timers counted"
+    return None
+
+
+def _track_u1(key):
+    if key[0] == "val":
+        return key[1] in ("self.config.transmission_mode", "self.prompt", "self.recv_state") or key[1].startswith("prompt.")
+    if key[0] == "call":
+        return key[1].endswith("VecDeque::is_empty") or key[1].endswith("Counter::timeout_occurred")
+    if key[0] == "expr":
+        return key[1] == "Gt(idx, const(0))"
+    if key[0] == "dexpr":
+        return key[1] == "Option::take(&mut self.prompt)"
+    return False
+
+
+def _carry_enabled(dw):
+    """At a call boundary: remember that the caller was already under an
+    enabled-state guard (local facts do not survive the projection to the callee)."""
+    if _w_derived(dw):
+        return [(("val", "<enabled>"), (True, frozenset([1])))]
+    return []
+
+
+def _recv_enabling_sites(ctx, fns):
+    """(fn, block, idx, line, what) of writes that make an ACK/NAK/keep-alive sendable."""
+    for f in fns:
+        for b in f.live_blocks():
+            blk = f.blocks[b]
+            for j, s in enumerate(blk["stmts"]):
+                if s["k"] == "assign":
+                    ps = f.place_str(s["place"])
+                    if ps in ("self.naks", "self.prompt", "self.ack") and f.name != "new":
+                        e = ExprBuilder(ctx.prog, f).rvalue(s["rv"])
+                        if e[0] == "agg" and e[3] == "None":
+                            continue
+                        yield f, b, j, s["span"]["line"], "write " + ps
+            t = blk["term"]
+            if t["k"] != "call":
+                continue
+            d, r, _ = ctx.prog.callee_of(t)
+            cal = r or d or ""
+            e = ExprBuilder(ctx.prog, f, inline=False).call(b, t)
+            a0 = expr_str(e[3][0]) if e[3] else ""
+            if cal.endswith("RecvTransaction::prepare_ack_eof"):
+                yield f, b, -1, t["span"]["line"], "prepare_ack_eof"
+            elif cal.endswith("Timer::restart_nak") or cal.endswith("Timer::reset_nak"):
+                yield f, b, -1, t["span"]["line"], cal.split("::")[-1]
+            elif a0 in ("&mut self.naks", "&mut self.delayed_nack_timers", "&mut self.prompt", "&mut self.ack"):
+                last = cal.split("::")[-1]
+                if last in ("push_back", "push_front", "push", "extend", "insert", "replace", "append", "get_or_insert", "get_or_insert_with"):
+                    yield f, b, -1, t["span"]["line"], "%s.%s" % (a0[5:], last)
+                elif last in ("drain", "take", "pop_front", "pop_back", "pop", "clear", "iter_mut", "as_mut", "retain", "remove", "truncate", "first", "len", "is_empty", "iter", "deref", "deref_mut", "index_mut", "get_mut"):
+                    continue
+                else:
+                    yield f, b, -1, t["span"]["line"], "%s.%s (unclassified mutator)" % (a0[5:], last)
+
+
+@rule("C18", "C18-U1", 8, "in unacknowledged mode nothing that makes an ACK, NAK or keep-alive sendable is written (guarded by the mode or, inductively, by already-enabled state)")
+def c18_u1(ctx):
+    fns = impl_fns(ctx, RECV)
+    it = inter(ctx, RECV, lambda k: _track_u1(k) or k == ("val", "<enabled>"), "u1", carry=_carry_enabled)
+    counts = {}
+    for f, b, j, line, what in _recv_enabling_sites(ctx, fns):
+        fl = it.flows.get(f.norm)
+        base = "%s:%s" % (f.name, what)
+        counts[base] = counts.get(base, 0) + 1
+        key = base + ("#%d" % counts[base] if counts[base] > 1 else "")
+        if fl is None:
+            yield ok("C18-U1", key, at(f, line), "unreachable from entry points", nontrivial=False)
+            continue
+        worlds = fl.at_stmt(b, j) if j >= 0 else fl.at_term(b)
+        reasons = []
+        good = True
+        wbad = None
+        for w in worlds:
+            dw = dict(w)
+            if _mode_ack(dw):
+                reasons.append("mode==Acknowledged")
+            else:
+                r = _w_derived(dw)
+                if r:
+                    reasons.append(r)
+                else:
+                    good = False
+                    wbad = w
+        if good and worlds:
+            yield ok("C18-U1", key, at(f, line), {"guards": sorted(set(reasons))})
+        else:
+            chain = " -> ".join(short(x) for x, _ in it.chain(f.norm))
+            yield bad("C18-U1", key, at(f, line), "%s reachable in unacknowledged mode without a mode test or enabled-state guard: chain %s; state %s" % (what, chain, world_str(wbad) if wbad is not None else "?"))
+
+
+@rule("C18", "C18-U2", 1, "the sender does not shut down on sending EOF in unacknowledged mode when closure was requested")
+def c18_u2(ctx):
+    f = ctx.one("C18-U2", "SendTransaction::send_pdu")
+
+    def track(key):
+        return key[0] == "val" and key[1] in ("self.config.transmission_mode", "self.metadata.closure_requested", "self.send_state")
+
+    fl = Flow(ctx.prog, ctx.mods, f, track)
+    n = 0
+    for f2, b, t, d, r in call_sites([f], ends("SendTransaction::shutdown"), ctx.prog):
+        n += 1
+        worlds = fl.at_term(b)
+        good, w = all_worlds_satisfy(worlds, lambda dw: val_in(dw, "self.config.transmission_mode", {"Acknowledged"}) or val_in(dw, "self.metadata.closure_requested", {0}))
+        key = "send_pdu->shutdown" + ("#%d" % n if n > 1 else "")
+        if good:
+            yield ok("C18-U2", key, at(f, t["span"]["line"]), {"worlds": [world_str(x) for x in worlds]})
+        else:
+            yield bad("C18-U2", key, at(f, t["span"]["line"]), "sender shuts down right after sending EOF although closure may have been requested (the receiver's Finished is never heard): state %s" % world_str(w))
+    if n == 0:
+        # no shutdown in send_pdu at all is fine (ends elsewhere); keep the instance count honest
+        yield ok("C18-U2", "send_pdu:no-shutdown", at(f), "send_pdu calls no shutdown")
+
+
+@rule("C18", "C18-U4", 1, "the sender queues retransmissions only in acknowledged mode")
+def c18_u4(ctx):
+    fns = impl_fns(ctx, SEND)
+
+    def track(key):
+        return key[0] == "val" and key[1] in ("self.config.transmission_mode",)
+
+    it = inter(ctx, SEND, track, "mode")
+    n = 0
+    for f in fns:
+        fl = it.flows.get(f.norm)
+        for b, t in f.all_calls():
+            d, r, _ = ctx.prog.callee_of(t)
+            cal = r or d or ""
+            e = ExprBuilder(ctx.prog, f, inline=False).call(b, t)
+            a0 = expr_str(e[3][0]) if e[3] else ""
+            if a0 != "&mut self.naks":
+                continue
+            last = cal.split("::")[-1]
+            if last in ("pop_front", "pop_back", "drain", "clear", "retain", "len", "is_empty", "iter"):
+                continue
+            n += 1
+            key = "%s:naks.%s" % (f.name, last)
+            worlds = fl.at_term(b) if fl else frozenset()
+            good, w = all_worlds_satisfy(worlds, _mode_ack)
+            if good and worlds:
+                yield ok("C18-U4", key, at(f, t["span"]["line"]), "under transmission_mode == Acknowledged")
+            else:
+                yield bad("C18-U4", key, at(f, t["span"]["line"]), "sender NAK queue written outside the acknowledged arm: %s" % (world_str(w) if w is not None else "unreachable"))
+        for j_f, b, j, s, ps in field_writes([f], "self.naks"):
+            if f.name == "new":
+                continue
+            n += 1
+            worlds = fl.at_stmt(b, j) if (fl and j >= 0) else frozenset()
+            good, w = all_worlds_satisfy(worlds, _mode_ack)
+            key = "%s:naks=" % f.name
+            if good and worlds:
+                yield ok("C18-U4", key, at(f, s["span"]["line"]), "under transmission_mode == Acknowledged")
+            else:
+                yield bad("C18-U4", key, at(f, s["span"]["line"]), "sender NAK queue assigned outside the acknowledged arm")
+    if n == 0:
+        raise Anchor("C18-U4", "writers of SendTransaction.naks")
+
+
+# ================================================================ C13-Q2 / Q3
+@rule("C13", "C13-Q2", 1, "requests are processed in list order inside finalisation, the stop-after-first-failure flag is sticky, one response per request")
+def c13_q2(ctx):
+    f = ctx.one("C13-Q2", "RecvTransaction::finalize_receive")
+    eb = ExprBuilder(ctx.prog, f, user_stop=True)
+    ebf = ExprBuilder(ctx.prog, f)
+    problems = []
+    # the iterator: into_iter(&meta.filestore_requests) with no adaptor
+    iters = [x for x in eb.var_defs("iter")]
+    it_ok = [x for x in iters if expr_str(x) == "IntoIterator>::into_iter(&meta.filestore_requests)"]
+    if not it_ok:
+        problems.append("loop does not iterate `&meta.filestore_requests` directly: %s" % [expr_str(x) for x in iters])
+    meta = [expr_str(x) for x in ebf.var_defs("meta")]
+    if not all("self.metadata" in m for m in meta) or not meta:
+        problems.append("`meta` is not self.metadata: %s" % meta)
+
+    # process_request control-dependent on fail_rest == false; fail_rest written only from is_fail() there
+    def track(key):
+        return key[0] == "val" and key[1] == "fail_rest"
+
+    fl = Flow(ctx.prog, ctx.mods, f, track)
+    pr = list(call_sites([f], ends("FileStore::process_request"), ctx.prog))
+    if len(pr) != 1:
+        raise Anchor("C13-Q2", "single process_request call in finalize_receive")
+    _, pb, pt, _, _ = pr[0]
+    good, w = all_worlds_satisfy(fl.at_term(pb), lambda dw: val_in(dw, "fail_rest", {0}))
+    if not good:
+        problems.append("process_request is not guarded by fail_rest == false (%s)" % world_str(w))
+    req_arg = expr_str(eb.call(pb, pt)[3][1]).lstrip("&")
+    if req_arg != "request":
+        problems.append("process_request argument is %s, not the loop's request" % req_arg)
+    req_def = [expr_str(x) for x in ebf.var_defs("request")]
+    if not req_def or not all("Iterator>::next(&mut iter)" in x and "@Some.0" in x for x in req_def):
+        problems.append("`request` is not the element yielded by the loop iterator: %s" % req_def)
+    writes = []
+    for _f, b, j, s, ps in field_writes([f], "fail_rest"):
+        e = eb.rvalue(s["rv"]) if j >= 0 else eb.call(b, s)
+        writes.append((b, s["span"]["line"], expr_str(e)))
+    inits = [x for x in writes if x[2] == "const(0)"]
+    others = [x for x in writes if x[2] != "const(0)"]
+    if len(inits) != 1:
+        problems.append("fail_rest is initialised %d times" % len(inits))
+    for b, line, txt in others:
+        if not txt.startswith("FileStoreStatus::is_fail(&rep.action_and_status") and "is_fail(&rep.action_and_status)" not in txt:
+            problems.append("fail_rest written from %s at L%d" % (txt, line))
+        elif b not in f.reachable(pt["target"]) or not _dominated_by(f, pb, b):
+            problems.append("fail_rest update at L%d is not in the arm that processed the request" % line)
+    repd = [expr_str(x) for x in eb.var_defs("rep")]
+    if not repd or not all(x.startswith("FileStore>::process_request(") or "process_request(" in x for x in repd):
+        problems.append("`rep` is not the process_request result: %s" % repd)
+    # the not-performed arm uses the same request
+    np_sites = list(call_sites([f], ends("FileStoreResponse::not_performed"), ctx.prog))
+    for _f, b, t, d, r in np_sites:
+        a = expr_str(eb.call(b, t)[3][0]).lstrip("&")
+        if a != "request":
+            problems.append("not_performed argument is %s" % a)
+        good, w = all_worlds_satisfy(fl.at_term(b), lambda dw: val_in(dw, "fail_rest", {1}))
+        if not good:
+            problems.append("not_performed response not under fail_rest == true")
+    if not np_sites:
+        problems.append("no not_performed response for skipped requests")
+    # one push of the response per iteration: every path from the loop body entry back to the
+    # loop head passes out.push(response)
+    pushes = [b for _f, b, t, d, r in call_sites([f], ends("Vec::push"), ctx.prog) if expr_str(eb.call(b, t)[3][0]) == "&mut out" and expr_str(eb.call(b, t)[3][1]) == "response"]
+    if not pushes:
+        problems.append("no out.push(response)")
+    else:
+        # the Some-edge target of the iterator's next()
+        body = None
+        head = None
+        for b in f.live_blocks():
+            t = f.blocks[b]["term"]
+            if t["k"] == "switch":
+                txt = expr_str(ebf.operand(t["discr"]))
+                if txt.startswith("discr(Iterator>::next(&mut iter))"):
+                    head = b
+                    body = [tb for v, tb in t["targets"] if v == 1]
+        if not body:
+            problems.append("loop head (iterator next) not found")
+        else:
+            r = f.reachable(body[0], avoid=set(pushes) | _error_exit_blocks(ctx, f))
+            if head in r:
+                problems.append("a loop iteration can complete without pushing a response")
+        respd = [expr_str(x) for x in eb.var_defs("response")]
+        if sorted(set(respd)) != ["FileStoreResponse::not_performed(&request)", "rep"]:
+            problems.append("`response` is not (rep | not_performed(request)): %s" % respd)
+    # self.filestore_response = out
+    fw = [(s["span"]["line"], expr_str(eb.rvalue(s["rv"]))) for _f, b, j, s, ps in field_writes([f], "self.filestore_response") if j >= 0]
+    if not fw or not all(x[1] == "out" for x in fw):
+        problems.append("self.filestore_response is not assigned the collected responses: %s" % fw)
+    if problems:
+        for i, p in enumerate(problems):
+            yield bad("C13-Q2", "finalize_receive:loop:%d" % i, at(f, pt["span"]["line"]), p)
+    else:
+        yield ok("C13-Q2", "finalize_receive:loop", at(f, pt["span"]["line"]), {"iterator": "&meta.filestore_requests", "fail_rest_writers": writes, "push_blocks": pushes})
+
+
+@rule("C13", "C13-Q3", 4, "the responses given to the receiving user, put in the Finished PDU and handed to the sending user have the same origin")
+def c13_q3(ctx):
+    rfns = impl_and_closures(ctx, RECV)
+    sfns = impl_and_closures(ctx, SEND)
+    # receiver: FinishedIndication.filestore_responses <- self.filestore_response (or empty on cancel)
+    for f, b, j, s in agg_sites(rfns, "FinishedIndication"):
+        eb = ExprBuilder(ctx.prog, f, user_stop=True)
+        e = eb.rvalue(s["rv"])
+        v = dict(zip(e[4], e[5])).get("filestore_responses")
+        txt = expr_str(v) if v else "?"
+        key = "%s:FinishedIndication.filestore_responses" % f.name
+        if txt == "Clone>::clone(&self.filestore_response)":
+            yield ok("C13-Q3", key, at(f, s["span"]["line"]), txt)
+        elif f.name == "_cancel" and ("Vec::new()" in txt or "into_vec" in txt or "vec" in txt.lower()) and "self." not in txt:
+            yield ok("C13-Q3", key, at(f, s["span"]["line"]), "cancel reports no responses: " + txt[:80])
+        else:
+            yield bad("C13-Q3", key, at(f, s["span"]["line"]), "receiver indication responses come from %s" % txt)
+    for f, b, j, s in agg_sites(rfns, "Finished"):
+        eb = ExprBuilder(ctx.prog, f, user_stop=True)
+        e = eb.rvalue(s["rv"])
+        if not e[2].endswith("::Finished") or e[3] != "Finished":
+            continue
+        v = dict(zip(e[4], e[5])).get("filestore_response")
+        txt = expr_str(v) if v else "?"
+        key = "%s:Finished.filestore_response" % f.name
+        if txt == "Clone>::clone(&self.filestore_response)":
+            yield ok("C13-Q3", key, at(f, s["span"]["line"]), txt)
+        else:
+            yield bad("C13-Q3", key, at(f, s["span"]["line"]), "Finished PDU responses come from %s" % txt)
+    # prepare_finished after the assignment of self.filestore_response: in check_finished and the
+    # unacknowledged arm prepare_finished is called after finalize_receive returned
+    for f, b, t, d, r in call_sites(impl_fns(ctx, RECV), ends("RecvTransaction::prepare_finished"), ctx.prog):
+        fin = [b2 for _f, b2, t2, d2, r2 in call_sites([f], ends("RecvTransaction::finalize_receive"), ctx.prog)]
+        if not fin:
+            continue
+        key = "%s:prepare_finished-after-finalize" % f.name
+        if all(b in f.reachable(f.blocks[x]["term"]["target"]) for x in fin) and not any(x in f.reachable(f.blocks[b]["term"]["target"]) for x in fin):
+            yield ok("C13-Q3", key, at(f, t["span"]["line"]), "prepare_finished runs after finalize_receive assigned the responses")
+        else:
+            yield bad("C13-Q3", key, at(f, t["span"]["line"]), "prepare_finished can run before finalize_receive assigned the responses")
+    # sender: indication responses <- the received Finished PDU's field
+    for f, b, j, s in agg_sites(sfns, "FinishedIndication"):
+        eb = ExprBuilder(ctx.prog, f, user_stop=True)
+        e = eb.rvalue(s["rv"])
+        v = dict(zip(e[4], e[5])).get("filestore_responses")
+        txt = expr_str(v) if v else "?"
+        key = "%s:FinishedIndication.filestore_responses" % f.name
+        if txt == "finished.filestore_response" and all("@Finished.0" in expr_str(x) for x in eb.var_defs("finished")):
+            yield ok("C13-Q3", key, at(f, s["span"]["line"]), txt)
+        elif f.name == "send_pdu" and "self." not in txt and "finished" not in txt:
+            yield ok("C13-Q3", key, at(f, s["span"]["line"]), "no-closure unacknowledged end reports no responses: " + txt[:80])
+        else:
+            yield bad("C13-Q3", key, at(f, s["span"]["line"]), "sender indication responses come from %s" % txt)
